@@ -72,12 +72,32 @@ def _detail(proto, role, beh, case):
     return None
 
 
-def _honest(ctx, proto, role, inst, n_inter, seed, alen):
+# protected records that are not application data, sent after the data exchange: a HelloRequest / another handshake message, warning and
+# fatal alerts, a ChangeCipherSpec, a heartbeat-type record.  The library may refuse them; it must never hand their bytes to the reader.
+STRAYS = [(22, bytes.fromhex("00000000")), (22, bytes.fromhex("0400000400000000")), (21, b"\x01\x5a"), (21, b"\x01\x00"), (21, b"\x02\x28"),
+          (20, b"\x01"), (24, b"\x01\x00\x02hi" + bytes(16))]
+
+
+def _honest(ctx, proto, role, inst, n_inter, seed, alen, stray=False):
     """the honest script against the library endpoint: ('ok' | 'inconclusive' | 'failed', message)"""
     rng = S.Rng(("app", seed))
     app = (rng.bytes(1 + alen), rng.bytes(1 + (alen * 7) % 2500))
     honest = "honest-noauth" if role == "server-noauth" else "honest"
-    ctl = S.run(ctx.variant, proto, role, honest, inst=inst, n_inter=n_inter, seed=seed, app=app, idle=30.0)
+    sp = None
+    if stray:
+        rt, pl = STRAYS[(seed + alen) % len(STRAYS)]
+        sp = (rt, pl, rng.bytes(1 + (alen * 3) % 200))
+    ctl = S.run(ctx.variant, proto, role, honest, inst=inst, n_inter=n_inter, seed=seed, app=app, idle=30.0, stray=sp)
+    if sp is not None and ctl.get("stray") is not None:
+        reads = ctl["stray"]
+        if not any(r[0] == "timeout" for r in reads):
+            delivered = b"".join(r[2] for r in reads if r[0] == "recv" and r[1] == 1)
+            ctx.case(nontrivial=True, classes=["stray-record-type-%d" % sp[0], "stray:" + ("refused" if not delivered else "skipped")],
+                     ident=["stray", proto, role, inst, n_inter, seed, alen])
+            ctx.check(sp[2].startswith(delivered), "%s library %s: after a protected record of content type %d (%s) the reader was handed %d bytes %s.. that are "
+                      "not the application data the peer wrote next (reads: %s)" % (proto, role, sp[0], sp[1].hex(), len(delivered), delivered[:24].hex(),
+                                                                                      [(r[0], r[1], len(r[2])) for r in reads]),
+                      "interop12/%s/non-application-record-delivered/type%d" % (proto, sp[0]))
     if ctl["setup"] is None or ctl["setup"][:2] != ("setup", "ok"):
         raise AssertionError("library endpoint set-up failed: %r" % (ctl["setup"],))
     srep = ctl["script"]
@@ -101,7 +121,7 @@ def register_interop(P, quick=900, thorough=20000):
     def interop12(case, ctx):
         """library endpoint against the independent pure-Python TLS 1.2 / TLCP implementation (honest): handshake completes, data arrives intact both ways"""
         proto, role = INTEROP_CELLS[case["icell"]]
-        st_, msg = _honest(ctx, proto, role, case["inst"], case["n_inter"], case["seed"], case["alen"])
+        st_, msg = _honest(ctx, proto, role, case["inst"], case["n_inter"], case["seed"], case["alen"], stray=True)
         if st_ == "inconclusive":
             ctx.note("inconclusive-timeout"); return
         ctx.case(nontrivial=True, classes=[proto, "lib-" + role, "depth%d" % (1 + case["n_inter"])], ident=case, sample=dict(case, proto=proto, role=role))
